@@ -256,6 +256,7 @@ type c11SchedObs struct {
 	Got          c11Tuple   `json:"got"`
 	Follow       c11Tuple   `json:"follow"`
 	Fired        []int      `json:"fired"`        // position at which each reload really ran (4 = after the request)
+	Order        []int      `json:"order"`        // indices of the reloads in the order in which they really ran
 	Expect       []c11Tuple `json:"expect"`       // per spec: quiescent answer to Req
 	ExpectFollow []c11Tuple `json:"expectFollow"` // per spec: quiescent answer to Follow
 	Comp         []c11Comp  `json:"comp"`         // per spec: search/rewrite oracle for Req
@@ -299,6 +300,7 @@ func c11RunSched(in c11SchedIn) (obs c11SchedObs) {
 			}
 			done[i] = true
 			obs.Fired[i] = pos
+			obs.Order = append(obs.Order, i)
 			// generations are rebuilt from the spec on every reload, as the supervisor does
 			ss, _ := supervisor.NewSpec(c11SpecYAML(in.Specs[rl.Spec]))
 			m.reload(ss, gens[rl.Spec].mm)
@@ -523,17 +525,26 @@ func TestVerifC11Mux(t *testing.T) {
 			continue
 		}
 		in := c11SchedIn{Specs: c11GenSpecs(r, r.Range(2, 3)), Req: c11GenReq(r), Follow: c11GenReq(r)}
-		pos := 0
-		for k := r.Range(1, 3); k > 0; k-- {
-			pos = r.PickInt(pos, pos, r.Range(pos, 4), r.Range(pos, 3))
-			in.Reloads = append(in.Reloads, c11Reload{Pos: pos, Spec: r.Range(0, len(in.Specs)-1)})
-		}
-		if adv || r.Chance(1, 2) {
-			// make sure the request has a body that is read, so that position 2 exists
-			if in.Req.BodyLen == 0 {
-				in.Req.BodyLen = 5
+		pos, cur := 0, 0
+		for k, first := r.Range(1, 3), true; k > 0; k-- {
+			if first {
+				pos = r.PickInt(0, 1, 1, 2, 2, 3, 3, 4)
+				first = false
+			} else {
+				pos = r.Range(pos, 4)
 			}
+			spec := (cur + 1 + r.Intn(len(in.Specs)-1)) % len(in.Specs) // a generation other than the live one
+			if r.Chance(1, 6) {
+				spec = cur
+			}
+			cur = spec
+			in.Reloads = append(in.Reloads, c11Reload{Pos: pos, Spec: spec})
+		}
+		if adv || r.Chance(2, 3) {
+			// a request that generation 0 routes and whose body it reads, so that every position exists
 			in.Req.Method = "POST"
+			in.Req.Path = r.PickStr("/a", "/pre/x")
+			in.Req.BodyLen = r.PickInt(1, 5, 10)
 		}
 		out.Emit(vfCase{ID: fmt.Sprintf("%s-sched-%d", src, i), Src: src, Grp: "sched", In: in, Obs: c11RunSched(in)})
 	}
